@@ -481,8 +481,11 @@ def overlaps(check, prog):
                 flat += [(x, True) for x in t[2]]
             else:
                 flat.append((t, pol))
-        conds = [t for t, pol in flat if t[0] == 'cmp']
-        pols = [pol for t, pol in flat if t[0] == 'cmp']
+        # bool(x) has the truth value of x
+        flat = [(t[2][0], pol) if t[0] == 'call' and t[1] == 'bool' and len(t[2]) == 1
+                and not t[3] else (t, pol) for t, pol in flat]
+        conds = [t for t, pol in flat if t[0] == 'cmp' and t[1] not in ('is', 'is not')]
+        pols = [pol for t, pol in flat if t[0] == 'cmp' and t[1] not in ('is', 'is not')]
         ok = len(conds) == 1 and conds[0][1] == '<' and pols == [True]
         # the verdict must be a boolean: with a prior among the coordinates (the
         # usual way to fit a cluster) the comparison returns a derived prior
